@@ -39,12 +39,18 @@ static uint32_t cb_n, cb_code; static uint16_t cb_idx; static uint8_t cb_sub;
 /* CBTMR: the completion callback of the first transfer starts an application timer (as an application that
  * schedules a retry would): it must survive the end of the transfer and fire when due */
 static int16_t  app_tmr = -1; static uint32_t app_fired; static uint8_t cb_arm;
+static CO_ERR   cb_req; static uint8_t cb_req_done; static uint8_t cb_buf[4];
+static void cb(CO_CSDO *c, uint16_t idx, uint8_t sub, uint32_t code);
 static void app_cb(void *p) { (void)p; app_fired++; }
 static void cb(CO_CSDO *c, uint16_t idx, uint8_t sub, uint32_t code)
 {
     (void)c; cb_n++; cb_code = code; cb_idx = idx; cb_sub = sub;
 #ifdef CBTMR
     if (cb_arm) { cb_arm = 0; app_tmr = COTmrCreate(&node.Tmr, 2, 0, app_cb, 0); }
+#endif
+#ifdef CBREQ
+    /* the application asks for its next transfer from inside the completion callback */
+    if (cb_arm) { cb_arm = 0; cb_req = COCSdoRequestUpload(c, CO_DEV(0x2345, 6), cb_buf, 4, cb, TMO1); cb_req_done = 1; }
 #endif
 }
 
@@ -83,7 +89,7 @@ void harness(void)
 #if KIND == 0
     {
         uint32_t step = 0, got = 0;
-        uint8_t  t = 0, done = 0, srv_silent = 0, deviated = 0;
+        uint8_t  t = 0, done = 0, srv_silent = 0, deviated = 0, lenient = 0;
         uint32_t acode = ND_U32();
         CO_ERR   e;
         ND_BUF(pay, SIZE + 8); ND_BUF(ubuf, BUFN);
@@ -135,6 +141,12 @@ void harness(void)
                         CHECK((q->Data[0] & 0xEF) == 0x60 && ((q->Data[0] >> 4) & 1) == t, "upload segment request with alternating toggle bit");
                         r[0] = (uint8_t)((tb << 4) | ((7 - n) << 1) | ((got + n == SIZE) ? 1 : 0));
                         for (i = 0; i < 7; i++) { if (i < n) { r[1 + i] = pay[got + i]; } }
+                        if ((BEH == 6) && (got + n == SIZE) && (n < 7)) {
+                            /* BEH 6: the last segment claims 7 data bytes although fewer remain */
+                            r[0] = (uint8_t)((tb << 4) | 1);
+                            for (i = 0; i < 7; i++) { r[1 + i] = pay[got + i]; }
+                            lenient = 1;
+                        }
                         if (tb != t) { deviated = 1; } else { got += n; t ^= 1; if (got == SIZE) { done = 1; } }
                     }
                 } else {
@@ -170,6 +182,10 @@ void harness(void)
                   env_tx[n0].Data[6] == 0x04 && env_tx[n0].Data[7] == 0x05, "abort frame 0504 0000h on the bus");
         } else if ((BEH == 1) && deviated) {
             CHECK(cb_n == 1 && cb_code == acode, "server abort reported once with the server's code");
+        } else if (lenient) {
+            /* oversized final segment: ended exactly once; whether the surplus is cut off or reported is not constrained */
+            CHECK(cb_n == 1, "transfer with an oversized final segment ends exactly once");
+            if (cb_code == 0) { for (i = 0; i < SIZE; i++) { CHECK(ubuf[4 + i] == pay[i], "user buffer holds the server's bytes up to its size"); } }
         } else if (deviated) {
             CHECK(cb_n == 1 && cb_code != 0, "malformed answer ends the transfer once with an error");
         } else {
@@ -180,6 +196,18 @@ void harness(void)
         }
         for (i = 0; i < 4; i++) { CHECK(ubuf[i] == ubuf0[i] && ubuf[4 + SIZE + i] == ubuf0[4 + SIZE + i], "nothing written outside the user buffer"); }
         if (DIRN == 1) { for (i = 0; i < SIZE; i++) { CHECK(ubuf[4 + i] == ubuf0[4 + i], "download leaves the user buffer alone"); } }
+#ifdef CBREQ
+        CHECK(cb_req_done, "the callback ran");
+        if (cb_req == CO_ERR_NONE) {
+            /* accepted: then it is a real transfer - request on the bus, supervised by its time-out, completed exactly once */
+            uint32_t n1 = env_tx_n, c1 = cb_n;
+            CHECK(env_tx[n1 - 1].Identifier == SRV_RX && env_tx[n1 - 1].Data[0] == 0x40, "a request accepted inside the callback is sent");
+            for (i = 0; i < TMO1 + 1; i++) { env_tick(&node); }
+            CHECK(cb_n == c1 + 1 && cb_code == 0x05040000, "a request accepted inside the callback is supervised by its time-out and ends exactly once");
+        } else {
+            CHECK(cb_req == CO_ERR_SDO_BUSY, "a request made inside the completion callback is refused as busy (or fully served)");
+        }
+#endif
         CHECK(c->State == CO_CSDO_STATE_IDLE, "client idle after the transfer");
 #ifdef CBTMR
         CHECK(app_tmr >= 0, "a timer can be created inside the completion callback");
